@@ -454,8 +454,19 @@ Definition sanitize_core (sens : text -> bool) (parse : text -> option obj) (dig
 Definition sanitize_record (parse : text -> option obj) (digest : text -> text) (can : bool) (record : text) : text :=
   colorizer can (sanitize_core sensitive_code parse digest can record).
 
-(* re.sub(r":\/\/(.*?)\@", <replacement>, msg): format() and, for text messages,
-   GoogleLogger.write_event (a different replacement text) *)
+(* re.sub of  ://  [^ / @ white-space double-quote single-quote]*  @  by <replacement> (since 7fc0b03): format() and, for text
+   messages, GoogleLogger.write_event / report_suppressions (a different replacement text).
+   The user-info part is the maximal run of characters other than '/', '@', quotes and white
+   space; the match exists iff that run is followed by '@' (the class excludes '@', so no
+   shorter run can be). *)
+Definition ui_stop (c : N) : bool := (c =? 47) || (c =? 34) || (c =? 39) || is_space c.
+Fixpoint find_userinfo (s : text) : option nat :=
+  match s with
+  | [] => None
+  | c :: r => if c =? 64 then Some O
+              else if ui_stop c then None
+              else option_map S (find_userinfo r)
+  end.
 Fixpoint url_from_r (repl : text) (s : text) (skip : nat) : text :=
   match s with
   | [] => []
@@ -464,7 +475,7 @@ Fixpoint url_from_r (repl : text) (s : text) (skip : nat) : text :=
       | S n => url_from_r repl r n
       | O =>
           if is_prefix (T "://") s then
-            match find_close 64 false (skipn 2 r) with
+            match find_userinfo (skipn 2 r) with
             | Some n => repl ++ url_from_r repl r (3 + n)
             | None => c :: url_from_r repl r 0
             end
@@ -566,6 +577,9 @@ Definition c20_show_gcl (c : obj * list (text * text) * list (text * text)) :=
    called with a dict).  A heap of containers addressed by index; a value is an owned JSON
    tree or a REFERENCE to a container, so one dict/list object can be reachable from several
    places, and the caller can mutate a container in place between two calls. *)
+(* [HDict] / [HList] stand for an instance of dict / list OR OF ANY SUBCLASS (OrderedDict,
+   defaultdict, an application's own mapping class): the walk tests isinstance, so the class is not
+   part of the model's state; the harness builds the subclass instances the case names. *)
 Inductive hval := HLeaf (j : json) | HRef (a : nat).
 Inductive hcell := HDict (kvs : list (text * hval)) | HList (items : list hval).
 Definition heap := list hcell.
@@ -648,12 +662,20 @@ Inductive sop :=
 | OAppend (a : nat) (v : hval)              (* object a .append(v)         (in place) *)
 | OSetItem (a : nat) (i : nat) (v : hval)   (* object a [i] = v            (in place) *)
 | ONew (c : hcell)                          (* a new container, address = number of cells so far *)
+| OCopy (a : nat) (deep : bool)             (* copy.copy(object a) / copy.deepcopy(object a) (or a pickle round trip): a new container *)
 | OTouch (k : nat).                         (* the caller empties the dict that call number k returned *)
 
 Inductive sout :=
 | SNone                                               (* not a call *)
 | SItems (items : list (text * text))                  (* items of the returned dict *)
 | SBad.                                               (* the root is not a dict *)
+
+(* a deep copy owns everything below it: equal value, no container shared with the original *)
+Definition own_cell (f : nat) (h : heap) (c : hcell) : hcell :=
+  match c with
+  | HDict kvs => HDict (map (fun kv => (fst kv, HLeaf (unfold f h (snd kv)))) kvs)
+  | HList l => HList (map (fun v => HLeaf (unfold f h v)) l)
+  end.
 
 (* calls leave every object as it is; the returned dict is new, so editing it changes nothing *)
 Definition heap_step (h : heap) (op : sop) : heap :=
@@ -664,6 +686,11 @@ Definition heap_step (h : heap) (op : sop) : heap :=
   | OAppend a v => replace_nth a (fun c => match c with HList l => HList (l ++ [v]) | _ => c end) h
   | OSetItem a i v => replace_nth a (fun c => match c with HList l => HList (replace_nth i (fun _ => v) l) | _ => c end) h
   | ONew c => h ++ [c]
+  | OCopy a deep =>
+      match nth_error h a with
+      | Some c => h ++ [if deep then own_cell (S (List.length h)) h c else c]   (* shallow: the same members *)
+      | None => h
+      end
   end.
 
 Definition call_items (digest : text -> text) (h : heap) (root : nat) (colorize : bool) : sout :=
@@ -712,7 +739,7 @@ Definition sout_ok (op : sop) (out : sout) (ob : sobs) : bool :=
   match op, out, ob with
   | OClean _ _, SItems it, BItems it' same => pairs_eqb it it' && same     (* heap_step: a call changes no object *)
   | OGcl _, SItems it, BFields fields same => gcl_fields_ok it fields && same
-  | (OSet _ _ _ | ODel _ _ | OAppend _ _ | OSetItem _ _ _ | ONew _ | OTouch _), SNone, BNone => true
+  | (OSet _ _ _ | ODel _ _ | OAppend _ _ | OSetItem _ _ _ | ONew _ | OCopy _ _ | OTouch _), SNone, BNone => true
   | _, _, _ => false
   end.
 
@@ -991,6 +1018,7 @@ Definition sx_sop (s : sx) : option sop :=
   | SL (SA [73] :: a :: i :: v :: []) => Some (OSetItem (sx_idx a) (sx_idx i) (sx_hval v))
   | SL (SA [78] :: c :: []) => Some (ONew (sx_hcell c))
   | SL (SA [88] :: k :: []) => Some (OTouch (sx_idx k))
+  | SL (SA [89] :: a :: d :: []) => Some (OCopy (sx_idx a) (sx_bool d))
   | _ => None
   end.
 Fixpoint all_some_list {A} (l : list (option A)) : option (list A) :=
